@@ -71,7 +71,7 @@ def run(ctx, rep):
             m = t["callee"]["def"].split("::")[-1]
             nw += 1
             rep.add("F8", "destination-write:%s:%s@%s" % (name.split("::")[-1], m, c13._nth(b, bb, m)), bool(c13.WRITE_OK.match(m)), b.where(bb), "%s::%s" % (tr, m))
-    rep.floor("F8", "destination-writes", nw, 4)
+    rep.floor("F8", "destination-writes", nw, 2)
     rep.add("F8", "no-unflushed-buffering", not any(o.rule == "F8" and not o.ok and "buffered-destination" in str(o.instance) for o in rep.obs), "",
             "functions that hold the destination: %s" % [s.split("::")[-1] for s in scope])
 
